@@ -38,10 +38,14 @@ MANIFEST = {
             "re-armed deadline within 1 s, minutes: within 61 s), emission rules (persist-immediately => record in the "
             "granting step, never-persist => no record, default => first expiry-wheel insertion with age >= delay), the "
             "all-expired restart and the fold structure of recover; the general simulation (recovered = persisted live "
-            "holds for every history) is not proved, only differential-tested; the millisecond unit and persistence "
-            "delays beyond the re-check horizon are refuted by concrete witnesses (replayed on the real code).",
+            "holds) is proved on a sub-language (C07_sim: exclusive seconds-unit holds, no re-locks) and, for two restarts "
+            "on one data directory, for runs that release restored holds between the restarts (C07_twice: a hold released "
+            "after a restart stays released, the others come back unchanged); outside these sub-languages it is "
+            "differential-tested only (one and two restarts); the millisecond unit and persistence delays beyond the "
+            "re-check horizon are refuted by concrete witnesses (replayed on the real code).",
     "note": "Model tied to the source by a three-way differential run (full in-process node before the stop / fresh "
-            "process after the restart / extracted model) on seeded histories; AofChannel goroutines = order-preserving "
+            "process after the restart / extracted model) on seeded histories, incl. two-restart histories (run / restart / "
+            "run on the restarted node / restart) and values larger than the value-file reader's buffer; AofChannel goroutines = order-preserving "
             "channel, file layer and compaction = identity on the record list (C08/C16), fsync not modelled.",
     "technique": "interactive proof (Coq) + extraction-based differential testing + runtime monitor",
     "design_ref": "DESIGN.md section 5 C07",
@@ -52,6 +56,7 @@ TRUSTED = [
     "lock-engine model coq/Engine/{Types,Queues,Timers,Engine,Engine2}.v + coq/Data (validated by the engine correspondence checks C01-C06 and again here: replies and census of every history are diffed against a full node)",
     "coq/Restart/Recover.v hand transcription of LoadAofFile's expiry filter, GetLockCommandExpriedTime and HandleLoad (aof.go:1478-1536, 2176-2207, 994-1030), validated by the census-after-restart diff of this run",
     "extraction: ExtrOcamlBasic only; ocaml/restart/driver.ml trusted for the correspondence only",
+    "two-restart histories: the log is append-only across a restart (model: the records of run 2 follow the records found on disk at the first restart; checked by the disk-record tie at the second restart); clock advances of run 2 are waited for in real time before the second restart (no wall-clock hook in the code)",
     "harness/restart/inj/zz_verif_restart.go injected in package server (go build -overlay -tags verif); hook verifManualClock assumed behaviour-neutral",
     "modelled-not-verified: AofChannel queue goroutines = order-preserving channel per database; AofFile buffering, rotation, rewrite (compaction) and the side data file = identity on the record list (exercised by the run with buffer 64..4096 and small rewrite sizes, proved separately under C08/C16); fsync; several databases = independent engine instances; single shard (DBConcurrent = 1); millisecond wheels (real goroutines; only the witness replay uses them); require-ack holds excluded from the histories",
 ]
@@ -529,6 +534,7 @@ def monitor(case, o1, o2, mrecs=None, second=False, restored=None):
             prio_unlock_on_key.add((int(f[14]), int(f[6])))
 
     twice = collections.Counter((h["db"], h["key"], h["lockid"]) for h in A)
+    compacted = any("rewrite.aof=" in (o.get("files") or "") for o in (o1, o2))      # a compaction has rewritten the log
     badvals = corrupted_values(o2.get("disk"), mrecs)
 
     def tag(k):
@@ -546,7 +552,7 @@ def monitor(case, o1, o2, mrecs=None, second=False, restored=None):
             return "<-unlock-priority-flag-not-persisted"
         if kk in updflag_on_key:
             return "<-update-flag-replayed-as-update"
-        if mrecs is not None and eff_model.get(kk, []) != eff_disk.get(kk, []):
+        if mrecs is not None and compacted and eff_model.get(kk, []) != eff_disk.get(kk, []):
             return "<-compaction-dropped-effective-record"      # C16: the compacted files replay to another state
         return ""
     raw = hits
@@ -653,7 +659,7 @@ def derive_data_fixes(ctx):
         ctx.notes.append("derive_fixes unavailable: %s" % e)
 
 
-PROPERTY_FILES = ["C07.v", "C07_sim.v"]       # C07_sim.v: general simulation on a sub-language (Restart/Sim*.v)
+PROPERTY_FILES = ["C07.v", "C07_sim.v", "C07_twice.v"]   # C07_sim.v: general simulation on a sub-language (Restart/Sim*.v); C07_twice.v: two restarts (Restart/SimTwice.v)
 
 
 def theorems(fn="C07.v"):
@@ -789,7 +795,7 @@ def analyse(c, o1, o2, m):
         elif o3.get("initerr") or o3.get("rc") != 0:
             hits.append(("second-restart-fails", "the node does not start on the data directory of the second stop: %s %s" % (o3.get("initerr"), (o3.get("stderr") or "")[-200:])))
         else:
-            oa = dict(holds=o2["holds2"], nowend=o2["nowend2"])
+            oa = dict(holds=o2["holds2"], nowend=o2["nowend2"], files=o2.get("files"))
             restored = set(hold_key(l) for l in o2["holds"])
             full = [l for l in c if l.split()[0] != "restart"]
             hits += monitor(full, oa, o3, ((m or {}).get("p2") or {}).get("recs"), second=True, restored=restored)
